@@ -98,6 +98,29 @@ Theorem T12abcd_spec_refuses : forall db C,
 Proof. exact spec_refuses. Qed.
 Print Assumptions T12abcd_spec_refuses.
 
+(* T12abc for a specification with several formulas ({'log_like': ..., 'weight': ..., ...}): BIOGEME._audit, as
+   extracted on this run (gen_biogeme_acc: accumulation with += over all the formulas), reports the fault of a
+   formula in ANY position of the specification *)
+Theorem T12_dict_fault_any_position : forall db fs e x,
+  In e fs -> In x (formula_errors G db e) -> In x (biogeme_audit_errors gen_biogeme_acc G db fs).
+Proof. exact dict_fault_any_position. Qed.
+Print Assumptions T12_dict_fault_any_position.
+Theorem T12_dict_faults_through_contexts : forall db fs1 fs2 C,
+  ctx_wf C = true ->
+  (forall x, ~ In x (d_cols db) ->
+     In (EMissingColumn x) (biogeme_audit_errors gen_biogeme_acc G db (fs1 ++ plug C (EVar x) :: fs2))) /\
+  (forall n t, passes_under is_mc C = false ->
+     In (EDrawsOutside n) (biogeme_audit_errors gen_biogeme_acc G db (fs1 ++ plug C (EDraws n t) :: fs2))) /\
+  (forall n, passes_under is_integrate C = false ->
+     In (ERvOutside n) (biogeme_audit_errors gen_biogeme_acc G db (fs1 ++ plug C (ERV n) :: fs2))).
+Proof. exact dict_faults_through_contexts. Qed.
+Print Assumptions T12_dict_faults_through_contexts.
+Example T12_dict_example :
+  biogeme_audit_errors gen_biogeme_acc G ex_db
+    [EBin Plus (EBeta "b" false) (EDraws "d" "NORMAL"); EVar "x1"; EBin Times (EBeta "b" false) (EVar "kk")]
+  = [EDrawsOutside "d"].
+Proof. vm_compute. reflexivity. Qed.
+
 (* T12e. logit: availabilities whose keys differ from the utilities', a chosen alternative that is not
    one of the utilities on some row (choice given by a constant or a column) *)
 Theorem T12e_logit_keys_rejected : forall db C uk ak kids,
